@@ -12,11 +12,15 @@ EXPLANATION = (
     "only the loaders may call the consumers; (C09.2) Sst::from_file_handle's loads are dominated by the six sanity "
     "gates; (C09.3) every data-sized allocation on a read path is bounded by a dominating comparison or a validated "
     "producer; (C09.4) no storage error is dropped/discarded/unwrapped and no explicit panic site is reachable from "
-    "the file-reading entry points (exceptions listed with reasons).  GUARDED/ORIGIN/REACH over resolved MIR.")
-NOT_DECIDED = ("that every bit flip at every offset is detected (CRC algebra, layout), and implicit panics: slice bounds "
-               "and arithmetic overflow on decoded values (e.g. Block::new's footer arithmetic) need value-range reasoning")
+    "the file-reading entry points (exceptions listed with reasons); (C09.4b) every index / range-slice of a raw byte "
+    "buffer in the same reach set is in range by a dominating comparison with the length of the same buffer or by "
+    "construction; the four sites that rely on the well-formedness of a block that passed its CRC, or on Vec::resize, are "
+    "excepted with that reason.  GUARDED/ORIGIN/REACH and array-bounds dataflow over resolved MIR.")
+NOT_DECIDED = ("that every bit flip at every offset is detected (CRC algebra, layout); arithmetic overflow on decoded values "
+               "(e.g. Block::new's footer arithmetic, reached only by bytes whose CRC matched) needs value-range reasoning")
 ASSUMPTIONS = ["crc32c::crc32c computes CRC-32C of exactly the slice it is given",
-               "the audit is explicit-construct-only: MIR Assert terminators (bounds, overflow) are out of scope"]
+               "a block whose CRC-32C matches its index entry is the block its builder wrote (in-block offsets are not re-validated)",
+               "overflow Assert terminators are out of scope"]
 
 READ_ENTRIES = [
     "sst::Sst::new", "sst::Sst::from_file_handle", "sst::Sst::load", "sst::Sst::metadata", "sst::Sst::cursor",
